@@ -68,7 +68,7 @@ def run(ctx):
             gy, iso = (nx, E2), p
         else:
             gy, iso = (ny, mgh.rand_connected(rng, ny)), None
-        items.append(mgh.mk_pair_item(gx, gy, mgh.CANON, mgh.CANON, seed=rng.randrange(1000), order=orders[t % 4], exact=True, owner="C05", iso=iso))
+        items.append(mgh.mk_pair_item(gx, gy, rng.choice(mgh.C05_REPRS), rng.choice(mgh.C05_REPRS), seed=rng.randrange(1000), order=orders[t % 4], exact=True, owner="C05", iso=iso))
     mgh.validate(ctx, items, "V-exact", "C05")
     # adaptive: an algorithm-layer divergence (the code no longer follows the model TLC proved sound) buys a much larger
     # exact-oracle campaign on sparse 5..8-vertex graphs, where unsound pruning/feasibility decisions show
@@ -89,7 +89,7 @@ def run(ctx):
         nx, ny = rng.randint(4, 8), rng.randint(4, 8)
         sty = rng.choice(["tree", "sparse", "star", "path", "lollipop"])
         gx, gy = (nx, mgh.rand_connected(rng, nx, sty)), (ny, mgh.rand_connected(rng, ny, rng.choice(["tree", "sparse", "star", "path"])))
-        it = mgh.mk_pair_item(gx, gy, mgh.CANON, mgh.CANON, seed=rng.randrange(1000), order=orders[t % 4], exact=True, owner="C05")
+        it = mgh.mk_pair_item(gx, gy, rng.choice(mgh.C05_REPRS), rng.choice(mgh.C05_REPRS), seed=rng.randrange(1000), order=orders[t % 4], exact=True, owner="C05")
         it["mk"] = focused(gx, gy)
         items.append(it)
     mgh.validate(ctx, items, "V-focused (lb above the trivial bound)%s" % (" x4 after divergence" if boost > 1 else ""), "C05")
@@ -128,7 +128,7 @@ def run(ctx):
             for b in range(len(gs)):
                 if a != b:
                     rr = {"lb": r["lbs"][a][b], "ub": r["ubs"][a][b], "warn": r.get("warn", 0)}
-                    ccases.append(mgh.pair_case(gs[a], gs[b], rr, True, algo=False)); cmeta.append((j, a, b))
+                    ccases.append(dict(mgh.pair_case(gs[a], gs[b], rr, True, algo=False), mine="C05")); cmeta.append((j, a, b))
     if ccases:
         vs, st = tlc.run_batch("TraceMGH", ccases, nproc=8, heap="3g")
         ctx.extra.setdefault("trace_validation_runs", []).append(dict(label="V-collection-entries", cases=len(ccases), tlc_states=st["states"], wall_s=round(st["wall"], 1)))
@@ -154,7 +154,7 @@ def run(ctx):
             iso = None
             DX, DY = mgh.dist_matrix(*gx), mgh.dist_matrix(*gy)
             cm = [mgh.local_search_map(rng, DX, DY), mgh.local_search_map(rng, DY, DX)]
-        items.append(mgh.mk_pair_item(gx, gy, mgh.CANON, mgh.CANON, seed=rng.randrange(1000), order=orders[t % 4], exact=False, owner="C05", iso=iso, cmaps=cm))
+        items.append(mgh.mk_pair_item(gx, gy, rng.choice(mgh.C05_REPRS), rng.choice(mgh.C05_REPRS), seed=rng.randrange(1000), order=orders[t % 4], exact=False, owner="C05", iso=iso, cmaps=cm))
     mgh.validate(ctx, items, "V-certificates", "C05")
     # more than 127 vertices with a small diameter (the distance matrix lives in int8 while counts and sort keys do not fit it)
     mgh.validate(ctx, mgh.many_vertices_items(rng, "C05", quick), "V-many-vertices-small-diameter", "C05", nproc=8)
